@@ -1817,8 +1817,16 @@ def setitem_array(out_name, array, indices, value):
     base_value_indices = []
     non_broadcast_dimensions = []
 
+    # The array dimensions that correspond to the entries of
+    # array_common_shape: every dimension without an integer index has an
+    # entry in implied_shape, of which the first ``offset`` have no
+    # counterpart in the assignment value.
+    common_positions = [
+        dim for dim, index in enumerate(indices) if not isinstance(index, int)
+    ][offset:]
+
     for i, (a, b, j) in enumerate(
-        zip(array_common_shape, value_common_shape, implied_shape_positions)
+        zip(array_common_shape, value_common_shape, common_positions)
     ):
         index = indices[j]
         if is_dask_collection(index) and index.dtype == bool:
